@@ -33,6 +33,10 @@ def ratFn (l : List Rat) : Nat → Rat := fun i => l.getD i 0
 def ratFn2 (l : List Rat) (cols : Nat) : Nat → Nat → Rat := fun i j => l.getD (i * cols + j) 0
 def natFn2 (l : List Nat) (cols : Nat) : Nat → Nat → Nat := fun i j => l.getD (i * cols + j) 0
 
+/-- array-backed accessors (constant-time entries; the array is captured once by the closure) -/
+def ratFn2A (a : Array Rat) (cols : Nat) : Nat → Nat → Rat := fun i j => a.getD (i * cols + j) 0
+def natFn2A (a : Array Nat) (cols : Nat) : Nat → Nat → Nat := fun i j => a.getD (i * cols + j) 0
+
 def ratListJson (l : List Rat) : Json := Json.arr (l.map ratJson).toArray
 
 def flat2 (m n : Nat) (f : Nat → Nat → Rat) : List Rat :=
@@ -101,9 +105,16 @@ def hClassical : Handler := fun j => do
   let m ← getNat j "m"; let n ← getNat j "n"
   let prob ← getRatList j "prob"; let pred ← getNatList j "pred"
   lenCheck [("prob", prob.length, m * n), ("pred", pred.length, m * n)]
-  let p := ratFn2 prob n; let f := natFn2 pred n
-  return Json.mkObj [("value", ratJson (xorClassicalValue m n p f)),
-    ("bias", ratJson (xorClassicalBias m n (dMat p f))), ("total", ratJson (totalProb m n p))]
+  let pa := prob.toArray; let fa := pred.toArray
+  let p := ratFn2A pa n; let f := natFn2A fa n
+  let total := totalProb m n p
+  if pred.all (· < 2) then
+    -- 0/1 predicate: one-sided enumeration (theorem xor_classical_one_sided: equal to the two-sided maxima)
+    return Json.mkObj [("value", ratJson (xorClassicalValueBR m n p f)), ("bias", ratJson (xorClassicalBiasBR m n (dMat p f))),
+      ("total", ratJson total), ("method", Json.str "one-sided")]
+  else
+    return Json.mkObj [("value", ratJson (xorClassicalValue m n p f)), ("bias", ratJson (xorClassicalBias m n (dMat p f))),
+      ("total", ratJson total), ("method", Json.str "two-sided")]
 
 def hDualMat : Handler := fun j => do
   let m ← getNat j "m"; let n ← getNat j "n"
